@@ -594,9 +594,10 @@ def h_effects(bits: int, ck: int, as_bytes: bool, no_color: bool, shard=None) ->
     kw = {"color": col, "bg_color": bg, "no_color": no_color, "make_bytes": as_bytes}
     for i, nm in enumerate(names):
         kw[nm] = True if (bits >> i) & 1 else None
-    err = check_fmt_concrete(kw)
-    if err:
-        raise Violation(f"real-fmt :: {err}")
+    for text in ("xy", "  ", " \t", "\xa0", " x "):
+        err = check_fmt_concrete(kw, text=text)
+        if err:
+            raise Violation(f"real-fmt :: text {text!r}: {err}")
 
 
 def h_text_roundtrip(n: int, l0: int, l1: int, l2: int, k0: int, k1: int, k2: int, shard=None) -> None:
